@@ -1222,8 +1222,11 @@ impl<'a> Runner<'a> {
                 // stem from any earlier fault (a background flush may have poisoned the device)
                 let faulted = match (&self.fault_dev, faults_before) {
                     (Some(d), Some(before)) => {
+                        // once a fault was consumed the device may be poisoned until restart and
+                        // failed allocations stay quarantined: later flushes may keep failing
+                        // (Indeterminate, or OutOfSpace before any I/O is attempted)
                         let now = d.lock().unwrap().faults_injected;
-                        now > before || self.poisoned || (kind == ErrKind::Indeterminate && now > 0)
+                        now > before || self.poisoned || (matches!(kind, ErrKind::Indeterminate | ErrKind::OutOfSpace) && now > 0)
                     }
                     _ => false,
                 };
